@@ -29,6 +29,15 @@ from spec import segments as SG
 BETA = {6: '6/v6-beta'}       # default server-side beta set (Cassandra 4.x); per node: HSNode.beta_versions (C* 3.10/3.11: {5})
 
 
+def settle_heap():
+    """SimEnv runs a full gc.collect() when a world is entered and left; with every driver module loaded that costs ~30 ms a time.
+    Moving what is alive after the imports into the permanent generation makes those collections cheap (only young objects are
+    scanned); nothing that a world creates is affected."""
+    import gc
+    gc.collect()
+    gc.freeze()
+
+
 # ------------------------------------------------------------------ stand-in compression
 def lz4_comp(data):
     data = bytes(data)
